@@ -63,6 +63,9 @@ var untypedCollectionInterface = reflect.TypeOf((*b6.UntypedCollection)(nil)).El
 
 // Convert v to type t, if possible. Doesn't convert functions.
 func Convert(v reflect.Value, t reflect.Type, w b6.World) (reflect.Value, error) {
+	if !v.IsValid() {
+		return reflect.Value{}, fmt.Errorf("expected %s, found nil", t)
+	}
 	if v.Type().AssignableTo(t) {
 		return v, nil
 	} else if v.CanConvert(t) {
@@ -153,6 +156,9 @@ func convertInterface(v reflect.Value, t reflect.Type) (reflect.Value, bool) {
 // Convert v to type t, if possible. If v represents a b6 function, it'll be
 // turned into a go function that executes it in a vm.
 func ConvertWithContext(v reflect.Value, t reflect.Type, context *Context) (reflect.Value, error) {
+	if !v.IsValid() {
+		return reflect.Value{}, fmt.Errorf("expected %s, found nil", t)
+	}
 	if t.Kind() == reflect.Func {
 		var c Callable
 		if vc, ok := v.Interface().(Callable); ok {
